@@ -120,48 +120,63 @@ theorem sayIndex_ext {s s' : State} {a : Value} {k : Nat} (h : sayIndex s a k = 
     · exact (say_ext _ _).trans (say_ext _ _)
     · exact sayId_ext _ _ _
 
-theorem act_ext {cfg : Cfg} {self : Option ObjId} {s s' : State} {a : Act}
-    (h : act cfg self s a = .ok s') : Ext s s' := by
+theorem actCore_ext {cfg : Cfg} {self : Option ObjId} {s s' : State} {a : Act}
+    (h : actCore cfg self s a = .ok s') : Ext s s' := by
   cases a with
   | spawn n =>
-    simp only [act] at h
+    simp only [actCore] at h
     split at h
     · cases h; exact say_ext _ _
     · split at h
       · cases h; exact (spawnObj_ext s).trans (say_ext _ _)
       · cases h; exact ((spawnObj_ext s).trans (setTargetName_ext _ _ _)).trans (say_ext _ _)
   | setName w n =>
-    simp only [act] at h
+    simp only [actCore] at h
     split at h <;> cases h
     · exact say_ext _ _
     · exact say_ext _ _
     · exact setTargetName_ext _ _ _
   | delete w =>
-    simp only [act] at h
+    simp only [actCore] at h
     split at h <;> cases h
     · exact say_ext _ _
     · exact say_ext _ _
     · exact destroy_ext _ _
   | mark w =>
-    simp only [act] at h
+    simp only [actCore] at h
     split at h <;> cases h
     · exact Ext.of_same rfl rfl rfl
     · exact say_ext _ _
   | hello =>
-    simp only [act] at h
+    simp only [actCore] at h
     split at h <;> cases h <;> exact say_ext _ _
   | capture v n => cases h; exact Ext.of_same rfl rfl rfl
   | copy v w => cases h; exact Ext.of_same rfl rfl rfl
   | query src =>
-    simp only [act] at h
+    simp only [actCore] at h
     split at h
     · cases h; exact (say_ext _ _).trans (foldl_sayId_ext _ _)
     · cases h
   | size src =>
-    simp only [act] at h
+    simp only [actCore] at h
     split at h <;> cases h
     exact say_ext _ _
   | index src k => exact sayIndex_ext h
+
+theorem note_fields (cfg : Cfg) (s : State) (x : Option Src) :
+    (note cfg s x).log = s.log ∧ (note cfg s x).nextObj = s.nextObj ∧ (note cfg s x).alive = s.alive ∧
+    (note cfg s x).tbl = s.tbl ∧ (note cfg s x).lists = s.lists ∧ (note cfg s x).vals = s.vals ∧
+    (note cfg s x).fld = s.fld ∧ (note cfg s x).cnt = s.cnt ∧ (note cfg s x).comp = s.comp := by
+  unfold note
+  split
+  · split <;> simp [say]
+  · simp
+
+theorem note_ext (cfg : Cfg) (s : State) (x : Option Src) : Ext s (note cfg s x) :=
+  Ext.of_same (note_fields cfg s x).1 (note_fields cfg s x).2.1 (note_fields cfg s x).2.2.1
+
+theorem act_ext {cfg : Cfg} {self : Option ObjId} {s s' : State} {a : Act}
+    (h : act cfg self s a = .ok s') : Ext s s' := (note_ext cfg s _).trans (actCore_ext h)
 
 theorem Res.bind_ok {r : Res} {f : State → Res} {s' : State} (h : r.bind f = .ok s') :
     ∃ s1, r = .ok s1 ∧ f s1 = .ok s' := by
@@ -265,35 +280,35 @@ def Act.noDelete : Act → Bool
   | .delete _ => false
   | _ => true
 
-theorem act_keep {cfg : Cfg} {self : Option ObjId} {s s' : State} {a : Act} (hd : a.noDelete = true)
-    (h : act cfg self s a = .ok s') : Keep s s' := by
-  have hext := act_ext h
+theorem actCore_keep {cfg : Cfg} {self : Option ObjId} {s s' : State} {a : Act} (hd : a.noDelete = true)
+    (h : actCore cfg self s a = .ok s') : Keep s s' := by
+  have hext := actCore_ext h
   refine ⟨hext, ?_⟩
   cases a with
   | delete w => cases hd
   | spawn n =>
-    simp only [act] at h
+    simp only [actCore] at h
     split at h
     · cases h; intro x _; rfl
     · split at h
       · cases h; exact ((spawnObj_keep s).trans (Keep.of_same rfl rfl rfl)).keep
       · cases h; exact (((spawnObj_keep s).trans (setTargetName_keep _ _ _)).trans (Keep.of_same rfl rfl rfl)).keep
   | setName w n =>
-    simp only [act] at h
+    simp only [actCore] at h
     split at h <;> cases h
     · intro x _; rfl
     · intro x _; rfl
     · exact (setTargetName_keep _ _ _).keep
   | mark w =>
-    simp only [act] at h
+    simp only [actCore] at h
     split at h <;> cases h <;> (intro x _; rfl)
   | hello =>
-    simp only [act] at h
+    simp only [actCore] at h
     split at h <;> cases h <;> (intro x _; rfl)
   | capture v n => cases h; intro x _; rfl
   | copy v w => cases h; intro x _; rfl
   | query src =>
-    simp only [act] at h
+    simp only [actCore] at h
     split at h
     · cases h
       intro x _
@@ -305,11 +320,11 @@ theorem act_keep {cfg : Cfg} {self : Option ObjId} {s s' : State} {a : Act} (hd 
       rw [this]; rfl
     · cases h
   | size src =>
-    simp only [act] at h
+    simp only [actCore] at h
     split at h <;> cases h
     intro x _; rfl
   | index src k =>
-    simp only [act] at h
+    simp only [actCore] at h
     unfold sayIndex at h
     split at h
     · cases h; intro x _; rfl
@@ -324,6 +339,12 @@ theorem act_keep {cfg : Cfg} {self : Option ObjId} {s s' : State} {a : Act} (hd 
     · split at h <;> cases h
       · intro x _; rfl
       · intro x _; unfold sayId; split <;> rfl
+
+theorem note_keep (cfg : Cfg) (s : State) (x : Option Src) : Keep s (note cfg s x) :=
+  Keep.of_same (note_fields cfg s x).1 (note_fields cfg s x).2.1 (note_fields cfg s x).2.2.1
+
+theorem act_keep {cfg : Cfg} {self : Option ObjId} {s s' : State} {a : Act} (hd : a.noDelete = true)
+    (h : act cfg self s a = .ok s') : Keep s s' := (note_keep cfg s _).trans (actCore_keep hd h)
 
 theorem acts_keep {cfg : Cfg} {self : Option ObjId} (l : List Act) (hd : ∀ a ∈ l, a.noDelete = true)
     {s s' : State} (h : acts cfg self l s = .ok s') : Keep s s' := by
@@ -393,17 +414,17 @@ def Act.selfDeleteOnly : Act → Bool
   | .delete (.obj _) => false
   | _ => true
 
-theorem act_keepBut {cfg : Cfg} {o : ObjId} {s s' : State} {a : Act} (hd : a.selfDeleteOnly = true)
-    (h : act cfg (some o) s a = .ok s') : KeepBut o s s' := by
+theorem actCore_keepBut {cfg : Cfg} {o : ObjId} {s s' : State} {a : Act} (hd : a.selfDeleteOnly = true)
+    (h : actCore cfg (some o) s a = .ok s') : KeepBut o s s' := by
   cases hn : a.noDelete with
-  | true => exact (act_keep hn h).keepBut o
+  | true => exact (actCore_keep hn h).keepBut o
   | false =>
     cases a with
     | delete w =>
       cases w with
       | obj k => cases hd
       | self =>
-        simp only [act, resolve] at h
+        simp only [actCore, resolve] at h
         split at h
         · rename_i e; split at e <;> cases e
         · cases h; exact (Keep.of_same (s := s) (s' := say s "!null") rfl rfl rfl).keepBut o
@@ -413,6 +434,10 @@ theorem act_keepBut {cfg : Cfg} {o : ObjId} {s s' : State} {a : Act} (hd : a.sel
           · cases e; exact destroy_keepBut s o
           · cases e
     | _ => cases hn
+
+theorem act_keepBut {cfg : Cfg} {o : ObjId} {s s' : State} {a : Act} (hd : a.selfDeleteOnly = true)
+    (h : act cfg (some o) s a = .ok s') : KeepBut o s s' :=
+  ((note_keep cfg s _).keepBut o).trans (actCore_keepBut hd h)
 
 theorem acts_keepBut {cfg : Cfg} {o : ObjId} (l : List Act) (hd : ∀ a ∈ l, a.selfDeleteOnly = true)
     {s s' : State} (h : acts cfg (some o) l s = .ok s') : KeepBut o s s' := by
@@ -518,5 +543,156 @@ theorem Reachable.good {cfg : Cfg} {s : State} (h : Reachable cfg s) : Good s :=
   have := run_good cfg l init_good
   rw [hl] at this
   exact this
+
+/-! ### the Debug-stream branch of `OP_UN_TARGETNAME` -/
+
+/-- the zero-bearers test of `OP_UN_TARGETNAME` is true exactly when nobody bears the name -/
+theorem noTarget_iff {s : State} (i : Inv s) (n : Name) : noTarget s n = true ↔ bearers s.log n = [] := by
+  unfold noTarget
+  cases e : s.tbl n with
+  | none =>
+    have h := i.refine n
+    rw [listOf_none e] at h
+    simp [List.map_eq_nil_iff.mp h.symm]
+  | some l =>
+    obtain ⟨rs, hrs, hne⟩ := i.nonempty n l e
+    have h : rs = (bearers s.log n).map some := by
+      rw [← i.refine n, ← lists_eq_listOf e, hrs]; rfl
+    simp only [hrs, Option.getD_some, beq_iff_eq, List.length_eq_zero_iff]
+    constructor
+    · intro h0; exact absurd h0 hne
+    · intro hb; rw [hb] at h; exact absurd h hne
+
+theorem note_name {cfg : Cfg} {s : State} (i : Inv s) (n : Name) :
+    note cfg s (some (.name n)) =
+      if cfg.dbg = true ∧ bearers s.log n = [] then say s "!notarget" else s := by
+  unfold note
+  simp only [Bool.and_eq_true, noTarget_iff i n]
+
+theorem evalTarget_note (cfg : Cfg) (s : State) (x : Option Src) (n : Name) :
+    evalTarget cfg (note cfg s x) n = evalTarget cfg s n := by
+  unfold evalTarget
+  rw [(note_fields cfg s x).2.2.2.1, (note_fields cfg s x).2.2.2.2.1]
+
+/-! ### cores of the fan-out theorems, for any state satisfying the invariant -/
+
+theorem fanOut_once_core {cfg : Cfg} {s s' : State} (g : Good s) {n : Name} {run : State → ObjId → Res}
+    (hrun : ∀ s o s', run s o = .ok s' → Ext s s') (hok : fanOut cfg s (.name n) run = .ok s') :
+    ∃ seg, s'.log = s.log ++ seg ∧ (visits seg).Nodup ∧ (visits seg).Sublist (bearers s.log n) ∧
+      (∀ o ∈ bearers s.log n, o ∈ visits seg ∨ s'.alive o = false) := by
+  have i := g.inv
+  unfold fanOut at hok
+  have key : ∀ seg, (visits seg).Sublist (bearers s.log n) → (visits seg).Nodup :=
+    fun seg hs => hs.nodup (i.nodup n)
+  simp only [evalSrc] at hok
+  rcases evalTarget_spec cfg i n with ⟨hb, he⟩ | ⟨o, hb, he⟩ | ⟨h2, hcase⟩
+  · rw [he] at hok
+    simp only [receivers] at hok
+    cases hok
+    exact ⟨[], by simp [say], by simp [visits], by simp [visits], by simp [hb]⟩
+  · rw [he] at hok
+    simp only [receivers] at hok
+    obtain ⟨seg, e, v⟩ := (hrun _ o s' hok).log
+    refine ⟨[.visited o] ++ seg, by rw [e]; simp, ?_, ?_, ?_⟩
+    · rw [visits_append, v]; simp [visits]
+    · rw [visits_append, v, hb]; simp [visits]
+    · intro x hx; rw [hb] at hx; left
+      rw [visits_append, v]; simpa [visits] using hx
+  · have hgroup : ∃ rs, receivers s (evalTarget cfg s n) = .group rs ∧ rs = (bearers s.log n).map some := by
+      rcases hcase with ⟨_, he⟩ | ⟨_, l, _, hl, he⟩
+      · rw [he]; simp only [receivers, List.length_map]
+        rw [if_pos (by omega)]; exact ⟨_, rfl, rfl⟩
+      · rw [he]; simp only [receivers, hl, List.length_map]
+        rw [if_pos (by omega)]; exact ⟨_, rfl, rfl⟩
+    obtain ⟨rs, hr, hrs⟩ := hgroup
+    rw [hr] at hok
+    have sp := fanLoop_spec hrun rs hok
+    obtain ⟨seg, e, sub, cov⟩ := sp.log
+    have hfm : rs.filterMap id = bearers s.log n := by rw [hrs]; simp [List.filterMap_map]
+    rw [hfm] at sub
+    refine ⟨seg, e, key seg sub, sub, ?_⟩
+    intro o ho
+    exact cov o (by rw [hrs]; exact List.mem_map.mpr ⟨o, ho, rfl⟩) (i.alive_lt o (i.bearer n o ho).1)
+
+
+theorem fanOut_all_core {cfg : Cfg} {s s' : State} (g : Good s) {n : Name} {run : State → ObjId → Res}
+    (hrun : ∀ s o s', run s o = .ok s' → KeepBut o s s') (hok : fanOut cfg s (.name n) run = .ok s') :
+    ∃ seg, s'.log = s.log ++ seg ∧ visits seg = bearers s.log n := by
+  have i := g.inv
+  unfold fanOut at hok
+  simp only [evalSrc] at hok
+  rcases evalTarget_spec cfg i n with ⟨hb, he⟩ | ⟨o, hb, he⟩ | ⟨h2, hcase⟩
+  · rw [he] at hok
+    simp only [receivers] at hok
+    cases hok
+    exact ⟨[], by simp [say], by simp [visits, hb]⟩
+  · rw [he] at hok
+    simp only [receivers] at hok
+    obtain ⟨seg, e, v⟩ := (hrun _ o s' hok).log
+    exact ⟨[.visited o] ++ seg, by rw [e]; simp, by rw [visits_append, v, hb]; simp [visits]⟩
+  · have hgroup : receivers s (evalTarget cfg s n) = .group ((bearers s.log n).map some) := by
+      rcases hcase with ⟨_, he⟩ | ⟨_, l, _, hl, he⟩
+      · rw [he]; simp only [receivers, List.length_map]; rw [if_pos (by omega)]
+      · rw [he]; simp only [receivers, hl, List.length_map]; rw [if_pos (by omega)]
+    rw [hgroup] at hok
+    have hlt : ∀ o, some o ∈ (bearers s.log n).map some → o < s.nextObj := by
+      intro o ho
+      obtain ⟨x, hx, e⟩ := List.mem_map.mp ho
+      cases e
+      exact i.alive_lt o (i.bearer n o hx).1
+    have hfm : ((bearers s.log n).map some).filterMap id = bearers s.log n := by
+      rw [List.filterMap_map]; simp only [Function.comp_def, id, List.filterMap_some]
+    obtain ⟨⟨seg, e, v⟩, -⟩ := fanLoop_selfonly hrun _ (by rw [hfm]; exact i.nodup n) hok hlt
+    refine ⟨seg, e, ?_⟩
+    rw [v, hfm]
+    exact List.filter_eq_self.mpr (fun o ho => (i.bearer n o ho).1)
+
+
+theorem fieldSet_fan_core {cfg : Cfg} (hfix : cfg.fieldFan = true) {s s' : State} (g : Good s)
+    {n : Name} {x : Nat} (hok : fieldSet cfg s (.name n) x = .ok s') :
+    (∃ seg, s'.log = s.log ++ seg ∧ visits seg = bearers s.log n) ∧
+    (∀ o, s'.fld o = if o ∈ bearers s.log n then x else s.fld o) := by
+  have i := g.inv
+  rcases evalTarget_spec cfg i n with ⟨hb, he⟩ | ⟨o, hb, he⟩ | ⟨h2, hcase⟩
+  · simp only [fieldSet, evalSrc, he] at hok
+    cases hok
+    exact ⟨⟨[], by simp [say], by simp [visits, hb]⟩, fun o => by simp [hb, say]⟩
+  · simp only [fieldSet, evalSrc, he] at hok
+    cases hok
+    refine ⟨⟨[.visited o], rfl, by simp [visits, hb]⟩, fun p => ?_⟩
+    simp only [hb, List.mem_singleton, upd]
+  · have hgroup : receivers s (evalTarget cfg s n) = .group ((bearers s.log n).map some) ∧
+        (∀ r, evalTarget cfg s n ≠ .obj r) ∧ evalTarget cfg s n ≠ .nil := by
+      rcases hcase with ⟨_, he⟩ | ⟨_, l, _, hl, he⟩
+      · rw [he]; simp only [receivers, List.length_map]; rw [if_pos (by omega)]; simp
+      · rw [he]; simp only [receivers, hl, List.length_map]; rw [if_pos (by omega)]; simp
+    obtain ⟨hg, hno, hnn⟩ := hgroup
+    have hfs : fieldSet cfg s (.name n) x =
+        fanLoop (fun st o => .ok { st with fld := upd st.fld o x }) ((bearers s.log n).map some) s := by
+      unfold fieldSet
+      simp only [evalSrc]
+      split
+      · rename_i e; exact absurd e hnn
+      · rename_i e; exact absurd e (hno _)
+      · rename_i e; exact absurd e (hno _)
+      · simp only [hfix, if_true, hg]
+    simp only [hfs] at hok
+    have halive : ∀ o, some o ∈ (bearers s.log n).map some → s.alive o = true := by
+      intro o ho
+      obtain ⟨y, hy, e⟩ := List.mem_map.mp ho
+      cases e
+      exact (i.bearer n o hy).1
+    have hlt : ∀ o, some o ∈ (bearers s.log n).map some → o < s.nextObj :=
+      fun o ho => i.alive_lt o (halive o ho)
+    obtain ⟨⟨seg, e, v⟩, -⟩ := fanLoop_all (fun st o st' e => by cases e; exact Keep.of_same rfl rfl rfl) _ hok hlt
+    refine ⟨⟨seg, e, ?_⟩, ?_⟩
+    · rw [v, List.filterMap_map]
+      simp only [Function.comp_def, id, List.filterMap_some]
+      exact List.filter_eq_self.mpr (fun o ho => (i.bearer n o ho).1)
+    · have key := fanLoop_setOne x ((bearers s.log n).map some) hok halive
+      intro o
+      rw [key o]
+      simp
+
 
 end Morfuse.Target
